@@ -248,6 +248,87 @@ impl<E, M> From<SyncEvent<E>> for StreamEvent<M> {
     }
 }
 
+/// Verification hook (add-only): runs `Aggregator::process` and renders the crate-private
+/// `SyncEvent` it returns as `(kind, numeric fields in declaration order, flag)`, where `flag` is
+/// "has error" for `SyncEnded` and "live phase" for `OperationReceived`.
+#[cfg(p2panda_p2panda_verif)]
+pub fn verif_process<E: Extensions>(
+    aggregator: &mut Aggregator,
+    from_sync: FromSync<TopicLogSyncEvent<E>>,
+) -> Option<(&'static str, Vec<u64>, bool)> {
+    match aggregator.process(from_sync)? {
+        SyncEvent::SyncStarted {
+            session_id,
+            incoming_operations,
+            outgoing_operations,
+            incoming_bytes,
+            outgoing_bytes,
+            topic_sessions,
+            ..
+        } => Some((
+            "SyncStarted",
+            vec![
+                session_id,
+                incoming_operations as u64,
+                outgoing_operations as u64,
+                incoming_bytes as u64,
+                outgoing_bytes as u64,
+                topic_sessions as u64,
+            ],
+            false,
+        )),
+        SyncEvent::SyncEnded {
+            session_id,
+            sent_operations,
+            received_operations,
+            sent_bytes,
+            received_bytes,
+            sent_bytes_topic_total,
+            received_bytes_topic_total,
+            error,
+            ..
+        } => Some((
+            "SyncEnded",
+            vec![
+                session_id,
+                sent_operations as u64,
+                received_operations as u64,
+                sent_bytes as u64,
+                received_bytes as u64,
+                sent_bytes_topic_total as u64,
+                received_bytes_topic_total as u64,
+            ],
+            error.is_some(),
+        )),
+        SyncEvent::OperationReceived { source, .. } => match source {
+            Source::SyncSession {
+                session_id,
+                sent_operations,
+                received_operations,
+                sent_bytes,
+                received_bytes,
+                sent_bytes_topic_total,
+                received_bytes_topic_total,
+                phase,
+                ..
+            } => Some((
+                "OperationReceived",
+                vec![
+                    session_id,
+                    sent_operations as u64,
+                    received_operations as u64,
+                    sent_bytes as u64,
+                    received_bytes as u64,
+                    sent_bytes_topic_total as u64,
+                    received_bytes_topic_total as u64,
+                ],
+                matches!(phase, SessionPhase::Live),
+            )),
+            _ => Some(("OperationReceived", vec![], false)),
+        },
+    }
+}
+
 /// Error occurred during a sync session.
 #[derive(Clone, Debug, Error)]
 #[error("an error occurred during sync: {0}")]
